@@ -758,7 +758,7 @@ def check(run: lib.Run, audit: dict) -> int:
         raise lib.CheckError(f"Lean build/audit failed at {audit['stage']}: "
                              f"{audit.get('log') or audit.get('forbidden') or audit.get('bad_axioms')}")
     cov = LineCov()
-    run_cases(run, [small_scope(run), random_scope(run), reentrant_scope(run)], cov, cov_every=7)
+    run_cases(run, [small_scope(run), random_scope(run, scale=run.boost), reentrant_scope(run, scale=run.boost)], cov, cov_every=7)
     run.extra["anchored_line_coverage"] = cov.report()
     run.extra["clock_reads"] = CLOCK.reads
     violations = []
